@@ -2,10 +2,11 @@
 # tools/try_seed.sh <patch.diff> <ID> [tier] — apply a seeded change to /repo, run the check, undo. Prints the check's tail.
 P=$1; ID=$2; TIER=${3:-quick}
 cd /repo || exit 2
-if ! git apply --check "$P" 2>/dev/null; then
-  if ! git apply -3 --check "$P" 2>/dev/null; then echo "PATCH-DOES-NOT-APPLY $P"; exit 3; fi
-fi
-git apply "$P" 2>/dev/null || git apply -3 "$P"
-( cd /verif && bin/check "$ID" --tier "$TIER" 2>&1 | tail -${TAILN:-6} ); rc=${PIPESTATUS[0]}
-git -C /repo checkout -- . ; git -C /repo clean -fdq
+git reset -q --hard HEAD; git clean -fdq
+if git apply --check "$P" 2>/dev/null; then git apply "$P"
+elif git apply -C1 --check "$P" 2>/dev/null; then git apply -C1 "$P"
+elif git apply -3 "$P" 2>/dev/null && ! git status --short | grep -q '^U'; then :
+else git reset -q --hard HEAD; echo "PATCH-DOES-NOT-APPLY $P"; exit 3; fi
+( cd /verif && bin/check "$ID" --tier "$TIER" 2>&1 | tail -${TAILN:-6} )
+git -C /repo reset -q --hard HEAD; git -C /repo clean -fdq
 git -C /repo status --short | head -3
